@@ -275,6 +275,13 @@ class RuleGen:
                     out.append({"$or": self.shuffled(alts + [self.decoy_operand()]), "times": rng.choice([2, 2, {"min": 1, "max": 2}, 1, 3])})
                     k += 2
                     continue
+            if k + 1 < n and ops[k] == ops[k + 1] and ops[k].startswith("[") and rng.random() < f.deref:
+                d = self.deref_for(ops[k])               # the same memory operand twice in a row: a $deref item with times
+                if d is not None:
+                    d["times"] = rng.choice([2, 2, {"min": 1, "max": 2}, 3])
+                    out.append(d)
+                    k += 2
+                    continue
             node = "@any" if (rng.random() < f.any and ops[k] != "") else self.operand_node(ops[k])
             if node is None:
                 break
